@@ -1722,12 +1722,21 @@ def bool_iff(c, st, v, expected, what):
     ok = not bad1 and not bad2
     # a result (or a decision on the path) that is an uninterpreted boolean — an unknown call, `all`/`any` over a
     # list, a flag vector — can be neither confirmed nor refuted against the definition
-    opaque_bool = _has_unk(f) or any(not _known_unk(k) for (k, _) in st.unk)
+    opaque_bool = _has_unk(f) or any(not _known_unk(k) for (k, _) in st.unk) or bool(st.tne) \
+        or len(st.teq) > c.res.get("n_teq0", 0)      # decisions on whole-array comparisons
     c.ob("ENS", what, f"result ⇔ {show_formula(expected)} (got {show_formula(f)})", ok, st,
          actual=("v", "top:uninterpreted boolean") if opaque_bool else None)
 
 
 def _norm_formula(st, f):
+    if isinstance(f, tuple) and len(f) == 3 and f[0] == "teq":
+        # X ≡ [1, 1, .., 1]  ⇔  X has no zero and no entry above 1 (rule ALL-ONES), for X of that length
+        for x, y in ((f[1], f[2]), (f[2], f[1])):
+            y = normalise(st, y)
+            if y[0] == "fill" and st.eq(as_poly(y[1]), 1) and st.eq(t_len(x), as_poly(y[2])):
+                x = normalise(st, x)
+                return f_and(("cmp", "eq", Poly.atom(("nzero", x))), ("cmp", "ge", Poly.const(1) - Poly.atom(("max", x)))) \
+                    if not st.eq(t_len(x), 0) else ("true",)
     if isinstance(f, tuple):
         return tuple(_norm_formula(st, x) for x in f)
     if isinstance(f, Poly):
